@@ -14,6 +14,7 @@ CONSTANTS
   CraftToks = {"TA", "TV2"}
   MaxPresent = 2
   Calls = {"client", "craft", "readdress", "deliver"}
+  PumpPay = FALSE
   HealRounds = 0
   HealDt = 250
   Bound = 0
